@@ -30,6 +30,8 @@ type cancelSpec struct {
 	// Nested: the pipeline is itself included by a stage of an outer pipeline (a condition error or a Cancel then
 	// arrives inside a nested scheduling loop)
 	Nested bool `json:"nested,omitempty"`
+	// TaskTimeout: the tasks carry a (long) timeout of their own
+	TaskTimeout bool `json:"task_timeout,omitempty"`
 }
 
 // runCancelCase runs one injection in its own process. Returns "", "suspect" or "crash".
@@ -179,6 +181,27 @@ func c12(c *h.Ctx) {
 				}
 				add(cancelSpec{K: k, W: len(specs) % 2, Mode: mode, Point: "during-command", Cancels: "once", Via: via, Cmd: cmd, Interactive: true})
 			}
+		}
+	}
+	// the task's own condition is a running command too
+	for _, mode := range []string{"direct", "pipeline"} {
+		for _, k := range []int{1, 2} {
+			via := "runner"
+			if mode == "pipeline" {
+				via = "scheduler"
+			}
+			add(cancelSpec{K: k, W: k - 1, Mode: mode, Point: "during-condition", Cancels: "once", Via: via, Cmd: "sleep"})
+		}
+	}
+	// commands that ignore the interrupt and keep writing: nothing of them after Cancel has returned; with and
+	// without a task timeout of their own
+	for _, mode := range []string{"direct", "pipeline"} {
+		for _, tt := range []bool{false, true} {
+			via := "runner"
+			if mode == "pipeline" {
+				via = "scheduler"
+			}
+			add(cancelSpec{K: 2, W: len(specs) % 2, Mode: mode, Point: "during-command", Cancels: "once", Via: via, Cmd: "ticker", TaskTimeout: tt})
 		}
 	}
 	for k := 0; k <= 2; k++ {
